@@ -1,12 +1,187 @@
 /-
-  UnytModel.Ops.C12 — opcodes of the C12 model (prefix `c12.`).
+  UnytModel.Ops.C12 — opcodes of the C12 model (prefix `c12.`): the registry state machine
+  `RegC12.step` run at `Float` on the regenerated default table, with the configuration the
+  translator read off the live source (`Generated.registryCfg`).
+
+  The session keeps, beside the machine state, the *contents* computed from the history
+  (`RegC12.specStep`) so that `c12.spec.*` can answer what `fresh (contents h)` says, and the
+  graph of the real parser on the probe strings (`c12.parse`).
 -/
 import UnytModel.DriverBase
+import UnytModel.RegistryC12
+import UnytModel.Generated.RegistryC12Cfg
 
 namespace Unyt
+open RegC12
 
-def opsC12 : Handler := fun _st fields =>
-  match fields with
+structure C12State where
+  cfg : Cfg := Generated.registryCfg
+  pre : Prefixes Float := defaultPrefixes Float
+  base : Lut Float := defaultLut Float
+  reg : RegState Float := fresh (defaultLut Float)
+  contents : Lut Float := defaultLut Float
+  /-- the graph of `parse_unyt_expr` on the strings the harness uses -/
+  ptab : List (String × Except Err (PExpr Float)) := []
+
+namespace C12State
+
+def parse (st : C12State) (q : String) : Except Err (PExpr Float) :=
+  match st.ptab.lookup q with
+  | some r => r
+  | none => .error .UnitParseError
+
+def entryStr (e : Entry Float) : String :=
+  s!"{bitsStr e.scale}\t{bitsStr e.offset}\t{e.dim.str}\t{if e.prefixable then 1 else 0}"
+
+/-- the entries of a snapshot that differ from the default table (sorted by key), `k=-` for a
+    default key the snapshot lacks: a canonical digest of the table `unit_system_id` hashes -/
+def snapDigest (_st : C12State) (base snap : Lut Float) : String :=
+  let keys := (snap.map (·.1) ++ base.map (·.1)).eraseDups
+  let cell (e : Option (Entry Float)) : String :=
+    match e with
+    | none => "-"
+    | some e => s!"{bitsStr e.scale},{bitsStr e.offset},{e.dim.str},{if e.prefixable then 1 else 0}"
+  let diff := keys.filterMap fun k =>
+    let a := cell (snap.find? k)
+    let b := cell (base.find? k)
+    if a == b then none else some (k, a)
+  let sorted := diff.toArray.qsort (fun x y => x.1 < y.1) |>.toList
+  ";".intercalate (sorted.map fun p => s!"{p.1}={p.2}")
+
+def outStr (st : C12State) : Out Float → String
+  | .done => "done"
+  | .err e => s!"err\t{e.str}"
+  | .unit i d => s!"unit\t{i}\t{bitsStr d.scale}\t{bitsStr d.offset}\t{d.dim.str}"
+  | .bool b => s!"bool\t{if b then 1 else 0}"
+  | .entry e => s!"entry\t{entryStr e}"
+  | .sysId snap => s!"sysid\t{st.snapDigest st.base snap}"
+
+/-- run one machine step: new session, the guard `opSafe` evaluated before the step, the result.
+    `updSpec = false` leaves the spec-side contents alone (used by the macros, which update the
+    contents by the *principled* spec: values taken from `fresh contents`, never from the machine) -/
+def doOp' (st : C12State) (op : Op Float) (updSpec : Bool := true) : C12State × Bool × Out Float :=
+  let safe := opSafe st.cfg st.parse st.reg op
+  let (reg', out) := step st.cfg st.pre st.parse st.reg op
+  ({ st with reg := reg', contents := if updSpec then specStep st.contents op else st.contents }, safe, out)
+
+def reply (st : C12State) (safe : Bool) (out : Out Float) : String :=
+  s!"{if safe then 1 else 0}\t{st.outStr out}"
+
+def doOp (st : C12State) (op : Op Float) : C12State × String :=
+  let (st', safe, out) := st.doOp' op
+  (st', st'.reply safe out)
+
+/-- what the fresh registry holding the contents answers (state unchanged) -/
+def specOut (st : C12State) (op : Op Float) : Out Float :=
+  (step st.cfg st.pre st.parse (fresh st.contents) op).2
+
+def specOp (st : C12State) (op : Op Float) : String := st.outStr (st.specOut op)
+
+/-- `r.modify(sym, unyt_quantity(v, q, registry=r))` as the machine steps it performs
+    (array.py / unit_registry.py:212-215): build the quantity's unit from the string `q` in this
+    registry, then `modify` with the MKS value `v * scale(q)` and the unit's dimensions.
+    The spec-side contents take the value from what `q` denotes in `fresh contents`. -/
+def modifyByQuantity (st : C12State) (sym : String) (v : Float) (q : String) : C12State × String :=
+  let specU := st.specOut (.unit q)
+  let (st1, safe1, o1) := st.doOp' (.unit q) false
+  match o1 with
+  | .unit _ u =>
+    let (st2, safe2, o2) := st1.doOp' (.modifyQ sym (v * u.scale) u.dim true) false
+    let c' := match specU with
+      | .unit _ u' => specStep st.contents (.modifyQ sym (v * u'.scale) u'.dim true)
+      | _ => st.contents
+    let st3 := { st2 with contents := c' }
+    (st3, st3.reply (safe1 && safe2) o2)
+  | o => (st1, st1.reply safe1 o)
+
+/-- `define_unit(sym, (v, q), prefixable=p, registry=r)` as the machine steps it performs
+    (unit_object.py:1021-1085): `sym in r` (→ `RuntimeError`), the quantity's unit from `q`, `add`. -/
+def defineUnit (st : C12State) (sym : String) (v : Float) (q : String) (p : Bool) : C12State × String :=
+  let specHas := st.specOut (.contains sym)
+  let specU := st.specOut (.unit q)
+  let c' := match specHas, specU with
+    | .bool false, .unit _ u' => specStep st.contents (.add sym ⟨v * u'.scale, u'.dim, 0, p⟩)
+    | _, _ => st.contents
+  let (st1, safe1, o1) := st.doOp' (.contains sym) false
+  match o1 with
+  | .bool true => ({ st1 with contents := c' }, st1.reply safe1 (.err .RuntimeError))
+  | _ =>
+    let (st2, safe2, o2) := st1.doOp' (.unit q) false
+    match o2 with
+    | .unit _ u =>
+      let (st3, safe3, o3) := st2.doOp' (.add sym ⟨v * u.scale, u.dim, 0, p⟩) false
+      ({ st3 with contents := c' }, st3.reply (safe1 && safe2 && safe3) o3)
+    | o => ({ st2 with contents := c' }, st2.reply (safe1 && safe2) o)
+
+end C12State
+
+def parseOpC12 : List String → Option (Op Float)
+  | ["add", sym, sc, dim, off, pf] =>
+    match fb sc, Dim.parse dim, fb off, parseBool pf with
+    | some s, some d, some o, some p => some (.add sym ⟨s, d, o, p⟩)
+    | _, _, _, _ => none
+  | ["addbad", sym] => some (.addInvalid sym)
+  | ["modf", sym, v] => (fb v).map fun x => .modifyF sym x
+  | ["modq", sym, v, dim, own] =>
+    match fb v, Dim.parse dim, parseBool own with
+    | some x, some d, some o => some (.modifyQ sym x d o)
+    | _, _, _ => none
+  | ["rm", sym] => some (.remove sym)
+  | ["unit", q] => some (.unit q)
+  | ["has", k] => some (.contains k)
+  | ["get", k] => some (.getitem k)
+  | ["sysid"] => some .sysId
   | _ => none
+
+/-- the stateful C12 opcodes -/
+def stepC12 (st : C12State) (fields : List String) : Option (C12State × String) :=
+  match fields with
+  | ["c12.cfg"] =>
+    let b := fun (x : Bool) => if x then "1" else "0"
+    some (st, s!"ok\t{b st.cfg.clearCache}\t{b st.cfg.purgeDerived}\t{b st.cfg.idSkipsDerived}\t{b st.cfg.memoResetLast}")
+  | ["c12.setcfg", c, p, i, m] =>
+    match parseBool c, parseBool p, parseBool i, parseBool m with
+    | some c, some p, some i, some m => some ({ st with cfg := ⟨c, p, i, m⟩ }, "ok")
+    | _, _, _, _ => some (st, "bad-op")
+  | ["c12.parse", q, "atom", s] => some ({ st with ptab := (q, .ok (.atom s)) :: st.ptab }, "ok")
+  | ["c12.parse", q, "prod", co, fac] =>
+    match fb co, Factors.parse fac with
+    | some c, some f => some ({ st with ptab := (q, .ok (.prod c f)) :: st.ptab }, "ok")
+    | _, _ => some (st, "bad-op")
+  | ["c12.parse", q, "err"] => some ({ st with ptab := (q, .error .UnitParseError) :: st.ptab }, "ok")
+  | ["c12.split", s] =>
+    match splitCandidate s with
+    | some (p, w) => some (st, s!"ok\t{p}\t{w}")
+    | none => some (st, "none")
+  | ["c12.modqu", sym, v, q] =>
+    match fb v with
+    | some x => some (st.modifyByQuantity sym x q)
+    | none => some (st, "bad-op")
+  | ["c12.defunit", sym, v, q, p] =>
+    match fb v, parseBool p with
+    | some x, some pf => some (st.defineUnit sym x q pf)
+    | _, _ => some (st, "bad-op")
+  | ["c12.lut"] => some (st, s!"ok\t{st.snapDigest st.base st.reg.lut}")
+  | ["c12.contents"] => some (st, s!"ok\t{st.snapDigest st.base st.contents}")
+  | ["c12.reset"] => some ({ st with reg := fresh st.base, contents := st.base }, "ok")
+  | ["c12.objs"] =>
+    let cells := st.reg.objs.map fun d => s!"{bitsStr d.scale},{bitsStr d.offset},{d.dim.str}"
+    some (st, s!"ok\t{st.reg.objs.length}\t{"|".intercalate cells}")
+  | ["c12.state"] =>
+    some (st, s!"ok\t{",".intercalate (st.reg.cache.map (·.1))}\t{",".intercalate st.reg.derived}\t{if st.reg.idMemo.isSome then 1 else 0}")
+  | op :: args =>
+    if op.startsWith "c12.spec." then
+      match parseOpC12 ((op.drop 9).toString :: args) with
+      | some o => some (st, st.specOp o)
+      | none => some (st, "bad-op")
+    else if op.startsWith "c12." then
+      match parseOpC12 ((op.drop 4).toString :: args) with
+      | some o => some (st.doOp o)
+      | none => some (st, "bad-op")
+    else none
+  | _ => none
+
+/-- the shared-state handler slot (all C12 opcodes are served by `stepC12`) -/
+def opsC12 : Handler := fun _st _fields => none
 
 end Unyt
